@@ -78,6 +78,9 @@ def oracle(out):
             nb = []
             P.spans_nested(out['result'], nb)
             bad += [('tree-meta-nesting', m) for m in nb]
+    if out['kind'] == 'error' and out['sig'][0] == 'AttributeError' and not any(c['custom'] for c in out['tracer'].pp_calls):
+        # PropagatePositions read a position attribute that is not there (a meta with one end only)
+        bad.append(('tree-meta', 'building the tree raised AttributeError: %s' % str(out['error'])[:120]))
     if out['kind'] == 'error' and out['sig'][0] == 'UnexpectedCharacters':
         _, pos, ln, col = out['sig'][:4]
         if (ln, col) != P.coord(out['buf'], pos):
@@ -97,6 +100,12 @@ F23_CASES = [
     ('F23:inlined-token-loses-container', 'start: atom "x"\n?atom: "(" NUM ")"\nNUM: /[0-9]+/\n', '(1)x'),
     ('F23:inlined-token-loses-container', 'start: "y" atom\n?atom: "(" NUM ")"\nNUM: /[0-9]+/\n', 'y(1)'),
 ]
+
+
+# an EMPTY child tree handed through an inlined rule as the LAST / FIRST positioned child (the boundary family only has
+# it between two tokens): where looking up last_meta after res_meta was written makes the result its own last child
+EMPTY_EDGE = ('start: item+\n?item: "[" emp "]" | "<" emp | emp2 ">" | NAME -> name\nemp:\nemp2:\nNAME: /[a-z]+/\n%ignore /[ \\n]+/\n',
+              ['<', '>', '<>', 'a<', '>a', '[]<', '<\n>', '< <\n<'])
 
 
 def exotic(col):
@@ -164,6 +173,9 @@ def correspond(ctx):
                     if win is not None and lexer in P.DYNAMIC:
                         continue
                     col.run('boundary', g, parser, lexer, text, 'bytes' if (win and win[0] == 'ab') else 'str', win, 'parse', ())
+    for text in EMPTY_EDGE[1]:
+        for parser, lexer in P.CONFIGS:
+            col.run('boundary', EMPTY_EDGE[0], parser, lexer, text, 'str', None, 'parse', ())
     # 2c. forks: the copied lexer state lexes the rest (systematic fork points, three ways of forking)
     for g, texts in P.FORK_GRAMMARS + [(P.BOUNDARY[0][0], ['(1\n+2)*\n(3)', '( 1 )\n * (2\n + 3)'])]:
         for ti, text in enumerate(texts):
